@@ -80,3 +80,13 @@ def net_setattr(it, net, name, val):
 def install(it):
     it.attr_hooks.append((Net, net_getattr))
     it.setattr_hooks = list(it.setattr_hooks) + [(Net, net_setattr)]
+
+
+def _net_sym_copy(self, it):
+    """copy.copy(net): a new mapping holding the same table objects"""
+    n = Net(PDict(self.fields), strict=self.strict, name=self.name + "'")
+    n._opaque = self._opaque
+    return n
+
+
+Net.sym_copy = _net_sym_copy
